@@ -222,12 +222,13 @@ func HarnessC13MultipleOfValidators() {
 	default:
 		val = uint(x)
 	}
-	f := verifPickFloat(1, 2, 3, 0.5, 1.5)
+	f := verifPickFloat(1, 2, 3, 0.5, 1.5, -2, 1e19, 2e19)
 	s := spec.Schema{}
 	s.MultipleOf = &f
 	got := NewSchemaValidator(&s, nil, "", nil).Validate(val).IsValid()
 	q := float64(x) / f
-	want := q == float64(int64(q))
+	// a factor that is not positive is an error for every kind; beyond the integer ranges only 0 is a multiple
+	want := verifAnd(f > 0, q == float64(int64(q)))
 	verifObserve("kind", kindNames[k])
 	verifAssert(got == want, "multipleof-verdict-is-exact-for-every-integer-kind")
 	verifAssert((MultipleOfNativeType("p", "q", val, f) == nil) == want, "multipleof-native-helper-is-exact")
@@ -345,10 +346,10 @@ func HarnessC13HugeBounds() {
 // the verdict must be the one of exact arithmetic on the decimal values (here: on the numbers scaled
 // by 10^6), through the helper, schema validation and parameter validation.
 func HarnessC13MultipleOfDecimal() {
-	datas := []float64{0.29, 0.57, 4.35, 0.3, 1.1, 0.07, 19.99, 100.01, 0.000003, 7, 0.35}
-	dataScaled := []int64{290000, 570000, 4350000, 300000, 1100000, 70000, 19990000, 100010000, 3, 7000000, 350000}
-	factors := []float64{0.01, 0.1, 0.05, 0.000001, 2.5, 0.3, 0.07}
-	factorScaled := []int64{10000, 100000, 50000, 1, 2500000, 300000, 70000}
+	datas := []float64{0.29, 0.57, 4.35, 0.3, 1.1, 0.07, 19.99, 100.01, 0.000003, 7, 0.35, 4000000001, 1000000000.5, 0}
+	dataScaled := []int64{290000, 570000, 4350000, 300000, 1100000, 70000, 19990000, 100010000, 3, 7000000, 350000, 4000000001000000, 1000000000500000, 0}
+	factors := []float64{0.01, 0.1, 0.05, 0.000001, 2.5, 0.3, 0.07, 2, 1}
+	factorScaled := []int64{10000, 100000, 50000, 1, 2500000, 300000, 70000, 2000000, 1000000}
 	i, j := verifChoose(len(datas)), verifChoose(len(factors))
 	x, f := datas[i], factors[j]
 	if verifBool() {
